@@ -45,5 +45,59 @@ SerUnsignedAlert(a) ==
 EcdhRaw(secret32, pub) == LET D == DecodePoint(S256, pub) IN BnToBE(Mul(S256, Secret(secret32), D.pt).x, 32)
 EcdhKey(secret32, pub) == SHA256(EcdhRaw(secret32, pub))
 
+\* ------------------------------------------------------------ stand-alone serialisers
+\* VarIntSerializer over the whole unsigned 64-bit range (the value is a BigNat)
+VarIntBn(n) ==
+  LET w == Len(BnNorm(n)) IN
+  IF w <= 1 /\ BnToNat(n) < 253 THEN <<BnToNat(n)>>
+  ELSE IF w <= 2 THEN <<253>> \o BnToLE(n, 2)
+  ELSE IF w <= 4 THEN <<254>> \o BnToLE(n, 4)
+  ELSE <<255>> \o BnToLE(n, 8)
+\* reading accepts non-canonical encodings: [ok, v (BigNat), pos] or [ok |-> FALSE, err]
+ReadVarIntBn(buf, pos) ==
+  LET h == ReadN(buf, pos, 1) IN
+  IF ~h.ok THEN h
+  ELSE LET t == h.v[1] w == IF t < 253 THEN 0 ELSE IF t = 253 THEN 2 ELSE IF t = 254 THEN 4 ELSE 8 IN
+       IF w = 0 THEN Ok(BnFromNat(t), h.pos)
+       ELSE LET b == ReadN(buf, h.pos, w) IN IF ~b.ok THEN b ELSE Ok(BnFromLE(b.v), b.pos)
+Read4(buf, pos) == ReadN(buf, pos, 4)
+Read32(buf, pos) == ReadN(buf, pos, 32)
+Id(x) == x
+SerFixedVec(v) == SerVector(Id, v)
+\* what a stand-alone deserialiser returns on an arbitrary buffer (trailing bytes are not looked at)
+ReadStandalone(kind, buf) ==
+  CASE kind = "bytes" -> ReadVarBytes(buf, 0)
+    [] kind = "intvec" -> ReadVector(Read4, buf, 0)
+    [] kind = "u256vec" -> ReadVector(Read32, buf, 0)
+    [] kind = "varint" -> ReadVarIntBn(buf, 0)
+
+\* ------------------------------------------------------------ OpenSSL-style big numbers (_bignum)
+\* a number is [neg, mag] as in ScriptNum.  bn2bin: minimal big-endian magnitude
+Bn2Bin(mag) == Rev(BnNorm(mag))
+\* bn2vch is the script-number encoding; bn2mpi the same bytes big-endian behind a 4-byte big-endian length
+Bn2Vch(x) == NumEnc(x)
+Bn2Mpi(x) == LET v == NumEnc(x) IN Rev(LE(Len(v), 4)) \o Rev(v)
+Vch2Bn(s) == NumDec(s)
+\* mpi2bn: "none" for a malformed length prefix
+Mpi2Bn(s) ==
+  IF Len(s) < 4 THEN [ok |-> FALSE]
+  ELSE LET n == SizeVal(Rev(SubSeq(s, 1, 4))) IN
+       IF Len(s) - 4 # n THEN [ok |-> FALSE] ELSE [ok |-> TRUE, v |-> NumDec(Rev(Drop(s, 4)))]
+
+\* ------------------------------------------------------------ DERSignature (bitcoin.signature)
+\* the reader uses compact-size lengths: 0x30 <len> ( 0x02 <len> r 0x02 <len> s ... )
+ReadDerSig(buf) ==
+  LET t == ReadN(buf, 0, 1) IN IF ~t.ok THEN t ELSE IF t.v # <<48>> THEN Fail("tag") ELSE
+  LET rs == ReadVarBytes(buf, 1) IN IF ~rs.ok THEN rs ELSE
+  LET a == ReadN(rs.v, 0, 1) IN IF ~a.ok THEN a ELSE IF a.v # <<2>> THEN Fail("tag") ELSE
+  LET rr == ReadVarBytes(rs.v, 1) IN IF ~rr.ok THEN rr ELSE
+  LET b == ReadN(rs.v, rr.pos, 1) IN IF ~b.ok THEN b ELSE IF b.v # <<2>> THEN Fail("tag") ELSE
+  LET ss == ReadVarBytes(rs.v, b.pos) IN IF ~ss.ok THEN ss ELSE
+  \* bytes after the outer element are refused (deserialize), bytes after s inside it are not looked at
+  IF rs.pos # Len(buf) THEN Fail("extra") ELSE
+  Ok([r |-> rr.v, s |-> ss.v, length |-> Len(rr.v) + Len(ss.v), whole |-> ss.pos = Len(rs.v)], rs.pos)
+\* the writer that inverts the reader
+SerDerSig(r, s) == <<48>> \o VarBytes(<<2>> \o VarBytes(r) \o <<2>> \o VarBytes(s))
+
 IsFinalIn(i) == i.seq = Rep(255, 4)
 =============================================================================
